@@ -284,6 +284,7 @@ def count_features(ctx, run):
     ctx.count("late_arrivals_inside_an_instant", sum(1 for a in case["arrivals"] if a.get("late")))
     if case.get("out_store"):
         ctx.count("store_as_next_hop_cases")
+    ctx.count("payload_length_differs_from_size", sum(1 for a in case["arrivals"] if "payload_len" in a))
     if case["cfg"]["cmap"] == "mixed":
         ctx.count("mixed_type_class_id_cases")
     if case["cfg"]["kind"] == "WFQ" and min(case["cfg"]["table"].values()) < 1e-3:
@@ -353,4 +354,9 @@ def gen_case(rng, kind, flavour=None, n=None, static=False, cmap=None, nflows=No
     if rng.random() < 0.3:
         tw = vnet.gen_arrivals(rng, len(cfg["flows"]), flavour, rng.randint(3, 40), sizes, None, burst_p=0.5, flows=cfg["flows"])
         case["twin"] = tw
+    if rng.random() < 0.15:
+        # packets carrying application data: a scheduler serves and accounts the packet's size, not len(payload)
+        for a in arr:
+            if not a.get("again") and rng.random() < 0.7:
+                a["payload_len"] = rng.choice([0, 1, max(1, int(a["size"]) // 2), 2 * int(a["size"]) + 3, 4000])
     return case
